@@ -5,7 +5,7 @@
    (Spec/AggSpec.v: NULL / missing / non-numeric inputs skipped, SUM/AVG/MIN/MAX of nothing = NULL, COUNT = 0,
    VAR = sum (x-mu)^2 / n, VARS = .../(n-1), STDDEV(S) = sqrt of them, FIRST/LAST_VALUE keep an explicit NULL). *)
 From Coq Require Import QArith Permutation.
-From SV Require Import Model.Agg Spec.AggSpec Proofs.AggProofs Proofs.AggFront.
+From SV Require Import Model.Agg Spec.AggSpec Proofs.AggProofs Proofs.AggFront Proofs.AggHaving.
 
 (* every registered aggregate except STDDEV, for a bare column / nested path (MCol) and for an expression
    argument evaluated per row (MExpr; code after fix d3cad79), for every batch *)
@@ -111,6 +111,52 @@ Example C03_select_list_example :
   = [Some (RNum 14); Some (RNum 10); Some (RNum (-10)); Some (RVal (VFlt 2))].
 Proof. exact select_list_example. Qed.
 
+(* consecutive batches of a query WITH a HAVING clause on one instance (Model/Agg.v hav_run: fs = the selected calls
+   followed by the hidden __having_n__ ones, the first nvis are delivered; p = the condition as the code evaluates it):
+   batch i of the run is hav_batch of ITS OWN rows - whether the earlier batches were delivered or rejected by HAVING
+   (a rejected batch hands nothing to the sinks, and leaves nothing behind either) *)
+Theorem C03_having_run_own_batch : forall fs nvis p bs,
+  hav_run fs nvis p (sel_init fs) bs = map (hav_batch fs nvis p) bs.
+Proof. exact hav_run_own_batch. Qed.
+Print Assumptions C03_having_run_own_batch.
+Theorem C03_having_rejected_batch_invisible : forall fs nvis p b bs,
+  hav_batch fs nvis p b = None ->
+  hav_run fs nvis p (sel_init fs) (b :: bs) = None :: hav_run fs nvis p (sel_init fs) bs.
+Proof. exact hav_rejected_batch_invisible. Qed.
+Print Assumptions C03_having_rejected_batch_invisible.
+(* every value of a delivered batch = the definition applied to the call's own argument over the rows of that batch *)
+Theorem C03_having_delivered_correct : forall fs nvis p bs i b row j f m sh,
+  nth_error bs i = Some b ->
+  nth_error (hav_run fs nvis p (sel_init fs) bs) i = Some (Some row) ->
+  (j < nvis)%nat -> nth_error fs j = Some (f, m, sh) -> regular (f, m, sh) ->
+  exists r, nth_error row j = Some r /\ ores_eq r (spec_batch f m (map (eval_arg sh) b)).
+Proof. exact hav_delivered_correct. Qed.
+Print Assumptions C03_having_delivered_correct.
+(* which batches come out is decided by the definitions' values over the own rows, and so are the delivered values *)
+Theorem C03_having_run_spec : forall fs nvis p bs, Forall regular fs ->
+  Forall2 (fun b out =>
+             match out with
+             | None => hholds p (map (field_spec b) fs) = false
+             | Some row => hholds p (map (field_spec b) fs) = true /\
+                           Forall2 ores_eq row (firstn nvis (map (field_spec b) fs))
+             end) bs (hav_run fs nvis p (sel_init fs) bs).
+Proof. exact hav_run_spec. Qed.
+Print Assumptions C03_having_run_spec.
+(* non-vacuity: HAVING sum(x) > 10 over CountingWindow(2) batches 1 2 | 20 30 | 5 6; and the same run with a Reset
+   that is skipped when nothing was delivered (NOT the code) reports count( * ) = 4 and collect = [1 2 20 30] *)
+Example C03_having_example :
+  hav_run hav_ex_fields 4 (HCmp HGt 0 10) (sel_init hav_ex_fields) hav_ex_batches =
+  [None;
+   Some [Some (RNum 50); Some (RNum 2); Some (RNum 20); Some (RList [VInt 20; VInt 30])];
+   Some [Some (RNum 11); Some (RNum 2); Some (RNum 5); Some (RList [VInt 5; VInt 6])]].
+Proof. exact hav_example. Qed.
+Example C03_having_lazy_reset_leaks :
+  hav_run_lazy_reset hav_ex_fields 4 (HCmp HGt 0 10) (sel_init hav_ex_fields) hav_ex_batches =
+  [None;
+   Some [Some (RNum 53); Some (RNum 4); Some (RNum 1); Some (RList [VInt 1; VInt 2; VInt 20; VInt 30])];
+   Some [Some (RNum 11); Some (RNum 2); Some (RNum 5); Some (RList [VInt 5; VInt 6])]].
+Proof. exact hav_lazy_reset_leaks. Qed.
+
 (* FINDING: the registered STDDEV is the sample deviation, the documentation says population *)
 Theorem C03_stddev_population_refuted :
   exists vs, run AStdDev vs = RSqrt 1 /\ spec AStdDev vs = RSqrt (var_pop [1; 2; 3]) /\ var_pop [1; 2; 3] == 2 # 3.
@@ -120,6 +166,23 @@ Theorem C03_stddev_partial : forall m cells, m <> MStar ->
   ores_eq (batch AStdDev m cells) (spec_batch AStdDevS m cells).
 Proof. exact batch_stddev_sample. Qed.
 Print Assumptions C03_stddev_partial.
+
+(* FINDING F59 (as found, not repaired): an aggregate call with an arithmetic argument written inside an analytic
+   function of a windowed query - changed_col(true, sum(x + 1)), lag(max(d.x * 2)) - runs over the bare column *)
+Theorem C03_inline_agg_arg_dropped_refuted :
+  exists cells,
+    sel_batch [inline_field_asis ASum false false (ShAff OAdd 1)] cells = [Some (RNum 2)] /\
+    spec_batch ASum MExpr (map (eval_arg (ShAff OAdd 1)) cells) = Some (RNum 5).
+Proof. exact inline_agg_arg_dropped_refuted. Qed.
+Print Assumptions C03_inline_agg_arg_dropped_refuted.
+Theorem C03_inline_agg_partial : forall f nested sh cells,
+  f <> AStdDev ->
+  match f with WStdDev | WStdDevS | WVar | WVarS => False | _ => True end ->
+  exists r, sel_batch [inline_field_asis f false nested sh] cells = [r] /\
+            ores_eq r (spec_batch f (sql_mode (inline_shape_asis nested sh))
+                                  (map (eval_arg (inline_shape_asis nested sh)) cells)).
+Proof. exact inline_agg_asis_bare_column. Qed.
+Print Assumptions C03_inline_agg_partial.
 
 (* HISTORY (F22, repaired): on the pinned commit percentile(x * 2, 0.5) / nth_value(x + 1, k) never saw their argument *)
 Theorem C03_two_arg_expr_arg_lost_refuted :
